@@ -277,6 +277,25 @@ use ckb_store::ChainStore;
 fn state_problems(node: &Node, cons: &Consensus, main: &[BlockView]) -> Vec<(String, String)> {
     let mut chain = vec![cons.genesis_block().clone()];
     chain.extend(main.iter().cloned());
+    if !cons.permanent_difficulty() {
+        // the byte-level reference models the flat world's epochs; in the dynamic world the state
+        // is judged by what names the main chain: stored tip and number index
+        use ckb_store::ChainStore;
+        let store = node.shared.store();
+        let mut out = vec![];
+        if store.get_tip_header().map(|h| h.hash()) != chain.last().map(|b| b.hash()) {
+            out.push(("meta-tip".into(), "stored tip is not the head of the expected main chain".into()));
+        }
+        for b in &chain {
+            if store.get_block_hash(b.number()) != Some(b.hash()) {
+                out.push(("number-hash-index".into(), format!("number index at {} does not name the main-chain block", b.number())));
+            }
+        }
+        if store.get_block_hash(chain.len() as u64).is_some() {
+            out.push(("number-hash-index".into(), "number index continues above the tip".into()));
+        }
+        return out;
+    }
     let r = match RefChain::replay(cons, &chain) {
         Ok(r) => r,
         Err(e) => return vec![("reference".into(), e)],
@@ -418,6 +437,50 @@ pub fn meta(_tier: Tier) -> Meta {
     }
 }
 
+/// Epoch rules where consecutive epochs differ: the dynamic-difficulty world (epochs of 4, 8, 16
+/// blocks, each with its own target).  Candidates: the head of epoch 1, the head of epoch 2 and a
+/// block inside epoch 1, each valid and with the previous epoch's length / the previous epoch's
+/// target / a doubled length instead.
+fn build_dyn_contexts(ctx: &Ctx, cons: &Consensus) -> Result<Vec<Context>, String> {
+    set_time(time_for_height(NOW_HEIGHT));
+    let mut forge = Forge::new(&ctx.scratch.join("c03-forge-dyn"), cons)?;
+    let mut p: Vec<BlockView> = vec![];
+    let mut parent = cons.genesis_hash();
+    for _ in 1..=13u64 {
+        let b = forge.build_on(&parent, &BlockSpec { miner: 1, ..Default::default() })?;
+        parent = b.hash();
+        p.push(b);
+    }
+    forge.goto(&parent)?;
+    let mut out = vec![];
+    for (name, tip_n, want) in [("dyn-tip3-epoch-head", 3usize, (1u64, 0u64, 8u64)), ("dyn-tip11-epoch-head", 11, (2, 0, 16)), ("dyn-tip5-inside-epoch", 5, (1, 2, 8))] {
+        let tip = p[tip_n - 1].clone();
+        let good = p[tip_n].clone();
+        if good.epoch() != EpochNumberWithFraction::new(want.0, want.1, want.2) {
+            return Err(format!("{name}: block {} is at {}, expected {want:?}", good.number(), good.epoch()));
+        }
+        let mut cands: Vec<Cand> = vec![];
+        let mut add = |n: &str, block: BlockView, valid: bool| cands.push(Cand { name: format!("{name}/{n}"), block, valid });
+        add("valid", good.clone(), true);
+        let prev_len = tip.epoch().length();
+        if prev_len != want.2 {
+            add("previous-epoch-length", good.as_advanced_builder().epoch(EpochNumberWithFraction::new_unchecked(want.0, want.1, prev_len)).build(), false);
+        } else {
+            add("half-length", good.as_advanced_builder().epoch(EpochNumberWithFraction::new_unchecked(want.0, want.1, want.2 / 2)).build(), false);
+        }
+        add("doubled-length", good.as_advanced_builder().epoch(EpochNumberWithFraction::new(want.0, want.1, want.2 * 2)).build(), false);
+        if tip.compact_target() != good.compact_target() {
+            add("previous-epoch-target", good.as_advanced_builder().compact_target(tip.compact_target()).build(), false);
+        } else {
+            // inside an epoch the target stays: the genesis epoch's target is the wrong one here
+            add("genesis-epoch-target", good.as_advanced_builder().compact_target(cons.genesis_block().compact_target()).build(), false);
+        }
+        add("target+1", good.as_advanced_builder().compact_target(good.compact_target() + 1).build(), false);
+        out.push(Context { name, chain: p[..tip_n].to_vec(), cands, good: good.clone(), good_child: p[tip_n + 1].clone(), detour: vec![], detour_after: 0 });
+    }
+    Ok(out)
+}
+
 pub fn run(ctx: &Ctx) -> Report {
     let mut report = Report::new();
     let cons = consensus(&WorldOpts::default());
@@ -452,6 +515,33 @@ pub fn run(ctx: &Ctx) -> Report {
                 report.violation(format!("valid-refused/context/{}", c.name), format!("{}: while reaching the context through its history: {msg}", c.name), json!({"context": c.name, "candidate": ""}));
             } else {
                 report.machinery_errors.push(format!("{}: {e}", c.name));
+            }
+        }
+    }
+    // the dynamic-difficulty world
+    {
+        let mut w = WorldOpts::default();
+        w.permanent_difficulty = false;
+        w.genesis_compact_target = ckb_types::utilities::difficulty_to_compact(ckb_types::U256::from(1u64 << 24));
+        let dcons = consensus(&w);
+        match build_dyn_contexts(ctx, &dcons) {
+            Err(e) => report.machinery_errors.push(format!("dynamic-world contexts: {e}")),
+            Ok(cs) => {
+                report.count("candidates", cs.iter().map(|c| c.cands.len()).sum::<usize>() as u64);
+                for c in &cs {
+                    let w = match &which {
+                        Some((cn, cand)) if cn == c.name => Some(cand.as_str()),
+                        Some(_) => continue,
+                        None => None,
+                    };
+                    if let Err(e) = run_context(ctx, &dcons, c, w, &mut report) {
+                        if let Some(msg) = e.strip_prefix("VIOLATION-CONTEXT ") {
+                            report.violation(format!("valid-refused/context/{}", c.name), format!("{}: while reaching the context through its history: {msg}", c.name), json!({"context": c.name, "candidate": ""}))
+                        } else {
+                            report.machinery_errors.push(format!("{}: {e}", c.name));
+                        }
+                    }
+                }
             }
         }
     }
